@@ -262,13 +262,17 @@ def _axis_iz(cfg, seg, pcs):
     return out
 
 
-def _contacts_active(cfg, seg, pcs, vm):
-    """every cell whose closure contains a point where the path changes cell (corner / edge contacts: a sample that sits
-    exactly there belongs to a cell the path only touches) is mapped to a source"""
+def _contact_cells(cfg, seg, pcs):
+    """for every point where the path changes cell: (index of the piece that starts there, cells whose closure contains the
+    point).  A sample that sits exactly there (lattice corner / edge, or within rounding of it) belongs to one of these
+    cells, which the path may only touch: a degenerate interval [t*, t*] of that cell."""
     L, u = _unit(seg)
     sh, st = cfg['shape'], cfg['steps']
-    for t0, t1, c in pcs[1:]:
+    out = []
+    for i in range(1, len(pcs)):
+        t0 = pcs[i][0]
         p = [seg[a] + u[a] * t0 for a in range(3)]
+        cells = set()
         for sx in (-1, 1):
             for sy in (-1, 1):
                 for sz in (-1, 1):
@@ -280,9 +284,15 @@ def _contacts_active(cfg, seg, pcs, vm):
                         ph = math.atan2(p[1], p[0]) + sy * 1e-9
                         q = [max(r, 0.0) * math.cos(ph), max(r, 0.0) * math.sin(ph), p[2] + sz * 1e-7 * st[2]]
                         cc = cyl_cell(cfg, q)
-                    if all(0 <= cc[a] < sh[a] for a in range(3)) and int(vm[cc]) < 0:
-                        return False
-    return True
+                    if all(0 <= cc[a] < sh[a] for a in range(3)):
+                        cells.add(cc)
+        out.append((i, cells))
+    return out
+
+
+def _contacts_active(cfg, seg, pcs, vm):
+    """every cell whose closure contains a point where the path changes cell is mapped to a source"""
+    return all(int(vm[c]) >= 0 for _, cells in _contact_cells(cfg, seg, pcs) for c in cells)
 
 
 def vmap_of(cfg):
@@ -335,6 +345,21 @@ def check_oracle(ctx, cfg, step, ms, seg, spec0, entries, desc, L=None, pcs=None
             if s_ >= 0:
                 runs[s_] += 1
     pcs = [p for p in pcs if p[2] is not None]
+    for i, cells in _contact_cells(cfg, seg, pcs):
+        adj = {int(vm[pcs[i - 1][2]]), int(vm[pcs[i][2]])}
+        extra = set(int(vm[c]) for c in cells) - adj
+        for s_ in extra:
+            if s_ >= 0:
+                runs[s_] += 1               # touched in a single point: one more (degenerate) interval of that source
+        if any(s_ >= 0 for s_ in extra) and all(a < 0 for a in adj):
+            active_runs += 1
+        # the contact point belongs to a cell of another source: it splits a run that continues across it
+        if extra and len(adj) == 1:
+            a = next(iter(adj))
+            if a >= 0:
+                runs[a] += 1
+        if any(s_ < 0 for s_ in extra) and all(a >= 0 for a in adj):
+            active_runs += 1
     ok = True
     for j in range(nb):
         bound = dt * max(1, runs[j]) * (1 + TOL) + tiny
@@ -434,6 +459,11 @@ def check_literal(ctx, cfg, step, ms, seg, L, pcs, cells, desc, slack=0.0):
         for jp in range(sh[1]):
             chord.setdefault((0, jp, iz), 0.0)
             runs[(0, jp, iz)] = runs.get((0, jp, iz), 0) + 1
+    real = [p for p in pcs if p[2] is not None]
+    for i, ccells in _contact_cells(cfg, seg, real):
+        for c in ccells - {real[i - 1][2], real[i][2]}:
+            chord.setdefault(c, 0.0)
+            runs[c] = runs.get(c, 0) + 1
     tiny = 1e-12 * max(L, 1.0) + slack
     for c, ch in chord.items():
         e = cells[(c[0] * sh[1] + c[1]) * sh[2] + c[2]]
@@ -1233,6 +1263,26 @@ def _mat_list(tr):
     return [[tr[i, j] for j in range(4)] for i in range(4)] if tr is not None else None
 
 
+def traced_equal(cfg, step, m1, m2):
+    """compare two spectra traced through two separately built scenes: 'equal' (to rounding), 'face-tie' (a sample sits within
+    rounding of a cell face and falls on different sides in the two scenes: whole dt's move between neighbouring bins) or
+    'differ'.  raysect's hit points of two scenes agree to a few ulps only, so bit equality is not to be expected."""
+    e1, e2 = m1['ent'], m2['ent']
+    if len(e1) != len(e2) or len(m1['segs']) != len(m2['segs']):
+        return 'differ'
+    Ls = [math.dist(sg[:3], sg[3:]) for sg in m1['segs']] or [0.0]
+    scale = max(max(Ls), 1e-300)
+    tol = [1e-9 * max(abs(a), abs(b)) + 1e-12 * scale for a, b in zip(e1, e2)]
+    off = [j for j in range(len(e1)) if abs(e1[j] - e2[j]) > tol[j]]
+    if not off:
+        return 'equal'
+    dts = [doc_plan(L, step, 2, cfg['geo'])[1] for L in Ls if L >= 0.1 * step] or [0.0]
+    dtmax = max(dts)
+    if len(off) <= 4 and all(abs(e1[j] - e2[j]) <= 2 * dtmax * (1 + 1e-6) + tol[j] for j in off):
+        return 'face-tie'
+    return 'differ'
+
+
 def replay_setter(ctx, r):
     """re-run a recorded setter history (emitter or object) against a freshly constructed object in the final configuration"""
     from raysect.optical import World, Ray, Point3D, Vector3D, Spectrum, AffineMatrix3D
@@ -1269,6 +1319,11 @@ def replay_setter(ctx, r):
         m1 = trace_ray(ctx, dict(cfgf), rt, rec, trf, bound, r['origin'], r['direction'], 'history', r['step'], w1, scratch)
         m2 = trace_ray(ctx, cfgf, rt2, rec2, trf, bound2, r['origin'], r['direction'], 'fresh', r['step'], w2, scratch)
         got, ref = (m1 and m1['ent']), (m2 and m2['ent'])
+        if m1 is not None and m2 is not None:
+            verdict = traced_equal(cfgf, r['step'], m1, m2)
+            ctx.log('replay: comparison of the two traced spectra: %s' % verdict)
+            if verdict != 'differ':
+                ref = got
     ctx.case(key=('replay-setter', str(r['ops'])))
     ctx.log('replay: after the history %r: %r' % (r['ops'], got))
     ctx.log('replay: fresh object            : %r' % (ref,))
@@ -1385,7 +1440,9 @@ def setter_stream(ctx, n_cases, cap):
         if m1 is None or m2 is None:
             continue
         ctx.case(key=('setter-object', cfg2['geo'], cfg2['shape'], tuple(ops), tuple(f2b(v) for v in o + d)) if any(m2['ent']) else None)
-        if m1['ent'] != m2['ent']:
+        verdict = traced_equal(cfg2f, step_f, m1, m2)
+        ctx.count('H:object:vs-fresh:' + verdict)
+        if verdict == 'differ':
             lastmap = [x for x in ops if x in ('mask', 'voxel_map')]
             ctx.fail('C10:%s:object:stale-after-set-%s' % (cfg2['geo'], lastmap[-1] if lastmap else ops[-1]),
                      'after %s the object traces %r, a freshly constructed object in the same configuration %r' % (ops, m1['ent'], m2['ent']), desc2)
